@@ -71,7 +71,7 @@ export class C {
     "JavaScript": {
         "several-functions-per-line": """const a = () => { return 1; }; function b() { return 2; }
 function c() { return 3; } const d = (x) => { return x; };
-const api = { open() { return 1; }, close() { return 2; } }; // both on one line
+const api = { open() { return 1; }, close() { return 2; } };
 <!-- html style comment
 function e() {
   return 5;
